@@ -72,6 +72,12 @@ def h_order(order, sep, with_time=False, explicit=True, languages=("en",), local
             v["H"] = C.field("H", 0, 23)
             v["T"] = C.field("T", 0, 59)
         st, wit = C.pref_settings()
+        if locales or region:
+            # as in a fresh process: the regional locale is the first locale of its language to be loaded
+            n = C.ns()
+            n.LO.LocaleDataLoader._loaded_languages.clear()
+            n.LO.LocaleDataLoader._loaded_locales.clear()
+            n.D.DateDataParser.locale_loader = None
         if explicit:
             st["DATE_ORDER"] = order
         if prefer_locale is not None:
